@@ -5,8 +5,8 @@
                             ITERATES, so "every key order of every map" = every list order, at every depth
      emit_value_doc ml m    the line structure toml::to_string / to_string_pretty (ml) write for Value::Table(m)
      emit_table_doc ml m    the same for a toml::Table m (Display for Table): no three loops at the root
-     emit_doc three ml m    one or the other
-     sections_of            the reference document (own values, then arrays of tables, then sub-tables)
+     emit_struct_doc ml m   the same for a struct / any serializer that keeps its own order (ser_plain)
+     sections_of            the reference document (own values first, then arrays of tables and sub-tables)
      read_back / decode o   the reference reader of documents (o: BTreeMap or IndexMap as toml::Map);
                             it refuses whatever TOML forbids (a key or table defined twice, ...)
      wf_tv                  keys of every map distinct (invariant of toml::Map)
@@ -16,55 +16,71 @@ From TV Require Import Base.Prelude Spec.Ordered Model.TomlValue Spec.Canonical.
 From TV Require Import Proofs.CanonicalBase Proofs.CanonicalEmit Proofs.CanonicalRead Proofs.CanonicalOrder Proofs.CanonicalTop.
 From Coq Require Import Permutation.
 
-(* the three-loop serializer, DocumentFormatter and visit_nested_tables / visit_table together write the
-   reference document, for every value and every order of every map *)
-Theorem C17_canonical_document : forall ml m,
-  emit_value_doc ml m = sections_of ml true m /\ emit_table_doc ml m = sections_of ml false m.
+(* Who hands the entries of the tables to the serializer (Proofs/CanonicalTop.v `writer`):
+     WValue   toml::Value            — `impl Serialize for Value`, three loops at every level
+     WTable   toml::Table at the root — map order there, Values below (Display for Table)
+     WStruct  a derived struct, or any Serialize impl that keeps an order of its own, at every level
+              (ser_plain: the tree is read as the serializer's call tree, fields in declaration order)
+   emit_doc w ml m is the document written (ml = pretty). *)
+
+(* the serializers, DocumentFormatter and visit_nested_tables / visit_table together write the reference
+   document, for every value and every order of every map / of the fields *)
+Theorem C17_canonical_document : forall w ml m, emit_doc w ml m = sections_of ml (w_three w) (w_tn w) m.
 Proof. exact canonical_document. Qed.
 Print Assumptions C17_canonical_document.
 
 (* VALUES BEFORE TABLES.  Any table value m — the root, a sub-table or an element of an array of tables,
-   with its entries in any order — once serialized and formatted (t), written at any path p:
-   after a section of one of its sub-tables / arrays of tables (path strictly below p) every later
-   section is strictly below p as well, so no key/value line of m itself follows.  (The sections of a
+   with its entries in any order — once serialized by `impl Serialize for Value` and formatted (t), written
+   at any path p: after a section of one of its sub-tables / arrays of tables (path strictly below p) every
+   later section is strictly below p as well, so no key/value line of m itself follows.  (The sections of a
    nested table are exactly such a block: Proofs/CanonicalEmit.v visit_nested_eq.) *)
 Theorem C17_values_before_tables : forall ml m t p a pre s post,
   fmt_item ml (ser_value (TTab m)) = ITbl t ->
   flat_map visit_table (visit_nested t p a) = pre ++ s :: post ->
   strict_prefix p (s_path s) ->
   Forall (fun s' => strict_prefix p (s_path s')) post.
-Proof. exact values_before_tables_model. Qed.
+Proof. exact (fun ml => values_before_tables_model ml true). Qed.
 Print Assumptions C17_values_before_tables.
+
+(* ... and the same for a struct / any serializer that keeps its own order *)
+Theorem C17_values_before_tables_struct : forall ml m t p a pre s post,
+  fmt_item ml (ser_plain (TTab m)) = ITbl t ->
+  flat_map visit_table (visit_nested t p a) = pre ++ s :: post ->
+  strict_prefix p (s_path s) ->
+  Forall (fun s' => strict_prefix p (s_path s')) post.
+Proof. exact (fun ml => values_before_tables_model ml false). Qed.
+Print Assumptions C17_values_before_tables_struct.
 
 (* ... more precisely: first the table's own section (all its key/value lines; left out only for a
    non-empty table without values), then sections strictly below it *)
 Theorem C17_table_shape : forall ml m t p a,
   fmt_item ml (ser_value (TTab m)) = ITbl t ->
   flat_map visit_table (visit_nested t p a)
-  = own_section ml true m p (kind_of p a) ++ rest_secs ml true m p /\
-  Forall (fun s => strict_prefix p (s_path s)) (rest_secs ml true m p).
-Proof. exact table_shape. Qed.
+  = own_section ml true true m p (kind_of p a) ++ rest_secs ml true true m p /\
+  Forall (fun s => strict_prefix p (s_path s)) (rest_secs ml true true m p).
+Proof. exact (fun ml => table_shape ml true). Qed.
 Print Assumptions C17_table_shape.
 
-(* for whole documents of both printers: no root key/value line after the first header *)
-Theorem C17_values_before_tables_doc : forall ml m pre s post,
-  (emit_value_doc ml m = pre ++ s :: post \/ emit_table_doc ml m = pre ++ s :: post) ->
+(* for whole documents of every writer: no root key/value line after the first header *)
+Theorem C17_values_before_tables_doc : forall w ml m pre s post,
+  emit_doc w ml m = pre ++ s :: post ->
   s_path s <> [] -> Forall (fun s' => s_path s' <> []) post.
 Proof. exact values_before_tables_doc. Qed.
 Print Assumptions C17_values_before_tables_doc.
 
-(* ANY ORDER DECODES.  The document is accepted by the reader and holds v up to the order of map entries *)
-Theorem C17_any_order_decodes : forall three ml m,
+(* ANY ORDER DECODES.  The document is accepted by the reader and holds v up to the order of map entries
+   (and the decoded value has distinct keys again) *)
+Theorem C17_any_order_decodes : forall w ml m,
   wf_tv (TTab m) = true ->
-  exists r, read_back (emit_doc three ml m) = Some r /\ tv_equiv (TTab r) (TTab m).
+  exists r, read_back (emit_doc w ml m) = Some r /\ tv_equiv (TTab r) (TTab m) /\ wf_tv (TTab r) = true.
 Proof. exact any_order_decodes. Qed.
 Print Assumptions C17_any_order_decodes.
 
 (* two values that differ only in the order of map entries (at any depth) give documents that decode to
-   values that differ only so — with either printer and either layout *)
-Theorem C17_any_order_same_value : forall three three' ml ml' m m',
+   values that differ only so — with any writer and either layout *)
+Theorem C17_any_order_same_value : forall w w' ml ml' m m',
   wf_tv (TTab m) = true -> wf_tv (TTab m') = true -> tv_equiv (TTab m) (TTab m') ->
-  exists r r', read_back (emit_doc three ml m) = Some r /\ read_back (emit_doc three' ml' m') = Some r' /\
+  exists r r', read_back (emit_doc w ml m) = Some r /\ read_back (emit_doc w' ml' m') = Some r' /\
                tv_equiv (TTab r) (TTab r').
 Proof. exact any_order_same_value. Qed.
 Print Assumptions C17_any_order_same_value.
@@ -75,26 +91,51 @@ Theorem C17_permutation_is_equiv : forall m m',
 Proof. exact permutation_equiv. Qed.
 Print Assumptions C17_permutation_is_equiv.
 
+(* spelled out: perm_tv v w = w is v with the entries of any of its maps, at any depth, permuted.
+   Whatever permutation: both documents are accepted by the reader and decode to v up to that order *)
+Theorem C17_any_permutation_decodes : forall w w' ml ml' m m',
+  wf_tv (TTab m) = true -> perm_tv (TTab m) (TTab m') ->
+  exists r r',
+    read_back (emit_doc w ml m) = Some r /\ read_back (emit_doc w' ml' m') = Some r' /\
+    tv_equiv (TTab r) (TTab m) /\ tv_equiv (TTab r') (TTab m).
+Proof. exact any_permutation_decodes. Qed.
+Print Assumptions C17_any_permutation_decodes.
+
+Theorem C17_permuted_is_equiv : forall v w, perm_tv v w -> wf_tv v = true -> tv_equiv v w.
+Proof. exact perm_tv_equiv. Qed.
+Print Assumptions C17_permuted_is_equiv.
+
 (* under BTreeMap the decoded value is exactly v (a BTreeMap-backed value is sorted at every level) *)
-Theorem C17_decodes_to_v_sorted : forall three ml m,
-  wf_tv (TTab m) = true -> sorted_tv (TTab m) -> decode OSorted (emit_doc three ml m) = Some m.
+Theorem C17_decodes_to_v_sorted : forall w ml m,
+  wf_tv (TTab m) = true -> sorted_tv (TTab m) -> decode OSorted (emit_doc w ml m) = Some m.
 Proof. exact decode_sorted_exact. Qed.
 Print Assumptions C17_decodes_to_v_sorted.
 
 (* ONE-STEP FIXED POINT, under sorted-map iteration and under insertion-order iteration, for
-   to_string(&Value) (three = true) and for Display of a parsed toml::Table (three = false: "printing a
-   parsed Table twice gives the same text"); the second print may even use the other layout *)
-Theorem C17_fixpoint : forall three o ml ml' m,
-  wf_tv (TTab m) = true -> order_inv o m ->
-  exists r, decode o (emit_doc three ml m) = Some r /\ emit_doc three ml' r = emit_doc three ml' m.
+   to_string(&Value) (WValue) and for Display of a parsed toml::Table (WTable: "printing a parsed Table
+   twice gives the same text"); the second print may even use the other layout *)
+Theorem C17_fixpoint : forall w o ml ml' m,
+  w_tn w = true -> wf_tv (TTab m) = true -> order_inv o m ->
+  exists r, decode o (emit_doc w ml m) = Some r /\ emit_doc w ml' r = emit_doc w ml' m.
 Proof. exact fixpoint. Qed.
 Print Assumptions C17_fixpoint.
 
-(* PLAIN AND PRETTY read back to the same value *)
-Theorem C17_plain_pretty : forall three o m,
+(* A struct's text read back AS A toml::Value and printed is in general another text (the Value lists the
+   fields sorted / in three-loop order: `C17_struct_reprint_differs` below) — the one-step fixed point of a
+   derived type is reading back at the same type (C07).  But the value read back is the struct's value up
+   to order, and that second text is a fixed point. *)
+Theorem C17_struct_second_print : forall o ml ml' m,
   wf_tv (TTab m) = true ->
-  decode o (emit_doc three true m) = decode o (emit_doc three false m) /\
-  decode o (emit_doc three false m) <> None.
+  exists r, decode o (emit_doc WStruct ml m) = Some r /\ tv_equiv (TTab r) (TTab m) /\
+  exists r2, decode o (emit_doc WValue ml' r) = Some r2 /\ emit_doc WValue ml' r2 = emit_doc WValue ml' r.
+Proof. exact struct_second_print. Qed.
+Print Assumptions C17_struct_second_print.
+
+(* PLAIN AND PRETTY read back to the same value *)
+Theorem C17_plain_pretty : forall w o m,
+  wf_tv (TTab m) = true ->
+  decode o (emit_doc w true m) = decode o (emit_doc w false m) /\
+  decode o (emit_doc w false m) <> None.
 Proof. exact plain_pretty. Qed.
 Print Assumptions C17_plain_pretty.
 
@@ -172,3 +213,13 @@ Example reader_refuses :
   read_back [mkSec [] KRoot []; mkSec [k "a"; k "b"] KStd []; mkSec [k "a"] KStd [(k "x", VLeaf (k "i1"))]]
   = Some [(k "a", TTab [(k "b", TTab []); (k "x", TLeaf (k "i1"))])].
 Proof. repeat split; vm_compute; reflexivity. Qed.
+
+(* a struct {e: 1, c: "x", m: [1, {}], t: {z: 1, a: 2}} printed (fields in declaration order), read back as a
+   toml::Value and printed: another text under both map kinds, the same value *)
+Definition st1 : list (bytes * tv) :=
+  [(k "e", L "i1"); (k "m", TArr [L "i1"; TTab []]); (k "c", L "s78"); (k "t", TTab [(k "z", L "i1"); (k "a", L "i2")])].
+Example C17_struct_reprint_differs :
+  option_map (emit_value_doc false) (decode OSorted (emit_struct_doc false st1)) <> Some (emit_struct_doc false st1) /\
+  option_map (emit_value_doc false) (decode OInsertion (emit_struct_doc false st1)) <> Some (emit_struct_doc false st1) /\
+  option_map (fun r => sort_tv (TTab r)) (decode OInsertion (emit_struct_doc false st1)) = Some (sort_tv (TTab st1)).
+Proof. repeat split; vm_compute; try discriminate; reflexivity. Qed.
